@@ -62,6 +62,7 @@ def main():
         try:
             for c in checks:
                 env = dict(os.environ, VERIF_SEED=os.environ.get("VERIF_SEED", "0"))
+                env["DX_OUT"] = f"/tmp/seedrun_out_{os.getpid()}"    # evidence / replays of mutant runs never land in /verif
                 if scratch:
                     env["DX_REPO"] = repo
                 p = sh([os.path.join(ROOT, "check"), c, "--tier", tier], cwd=ROOT, env=env)
@@ -77,7 +78,8 @@ def main():
                 subprocess.run(f"rm -rf {ROOT}/.cache/*-{tag}* {ROOT}/.cache/*{tag}.so", shell=True)
             else:
                 sh(["git", "-C", REPO, "checkout", "--", "."])
-                subprocess.run(["rm", "-rf", os.path.join(ROOT, "replays")])
+                pass
+            subprocess.run(["rm", "-rf", f"/tmp/seedrun_out_{os.getpid()}"])
         e = results.setdefault(n, {"property": target})
         e.setdefault("runs", {}).update({f"{c}:{tier}": v for c, v in fired.items()})
         e["caught_by"] = sorted({k.split(":")[0] for k, v in e["runs"].items() if v["exit"] == 1})
